@@ -473,10 +473,10 @@ class HeapMixin:
             if self.run.decide(kt == ok, "key equals stored key"):
                 return ov
         if r.vtype[0] == "obj":
-            nm = f"{r.sym}[{kt}]"
+            nm = f"{r.valsym or r.sym}[{kt}]"
             cls = r.vtype[1]
             return self.sym_ref(nm, "obj", cls, lambda: ObjRec(cls, {}, sym=nm))
-        return self.fresh(r.vtype, f"{r.sym}[{kt}]")
+        return self.fresh(r.vtype, f"{r.valsym or r.sym}[{kt}]")
 
     def dict_set(self, ref, k, v):
         r = self.run.rec(ref.oid)
